@@ -226,6 +226,62 @@ Proof.
   destruct (replay_sprint k acts c c' evs H1 H2 H3 H4) as [_ [_ [_ [_ [_ [_ [Hg _]]]]]]]. exact Hg.
 Qed.
 
+(* ---- "a contact that becomes non-active also leaves all its static groups", at sprint level ----------------------
+   Invariant: a non-active contact is in no static group.  ensureQueryBasedGroups and SetInput keep status and static
+   membership; an effective modifier clears every group of a non-active contact; a modifier that changes nothing
+   leaves the contact; a refreshed contact is the caller's (premise). *)
+Definition step_static_ok (s : step) : Prop :=
+  match s with SRefresh c' => NoStaticIfInactive E c' | _ => True end.
+
+Lemma run_step_no_static : forall s c c1 evs,
+  wf_contact E c -> step_wf E s -> step_static_ok s -> NoStaticIfInactive E c ->
+  run_step E s c = (c1, evs) -> NoStaticIfInactive E c1.
+Proof.
+  intros s c c1 evs Hwf Hs Hst HN H. destruct s as [fresh m| |c'|t]; cbn [run_step] in H.
+  - destruct (apply E fresh m c) as [[c2 evs2] b] eqn:HA. inversion H; subst c2 evs2. destruct b.
+    + destruct (after_modifier E fresh m c c1 evs Hwf Hs HA) as [_ [K2 _]].
+      intros Hact g Hg. rewrite (K2 Hact) in Hg. destruct Hg.
+    + destruct (after_noop_modifier E fresh m c c1 evs Hwf Hs HA) as [K1 _].
+      assert (Hsame := erase_same _ _ K1). destruct Hsame as [_ [_ [Hstat [_ [_ [_ [Hg _]]]]]]].
+      intros Hact g Hin. rewrite Hg in Hin. apply HN; [unfold is_active in *; rewrite <- Hstat; exact Hact | exact Hin].
+  - destruct Hwf as [Hnd _]. destruct (ensure_query_groups_spec E c c1 evs Hnd H) as [G1 [_ [_ [_ [G5 _]]]]].
+    intros Hact g Hin. destruct (uses_query E g) eqn:Hu; [reflexivity|]. exfalso.
+    assert (Hact0 : is_active c = false) by (rewrite G1 in Hact; destruct c; exact Hact).
+    assert (Hin0 : In g (c_groups c)) by (apply G5; [intros [_ Hq]; congruence | exact Hin]).
+    rewrite (HN Hact0 g Hin0) in Hu. discriminate.
+  - destruct (contact_json_eqb c c'); inversion H; subst; exact Hst.
+  - inversion H; subst. intros Hact g Hin. apply HN; [destruct c; exact Hact | destruct c; exact Hin].
+Qed.
+
+Theorem steps_no_static : forall ss c c' evs,
+  wf_contact E c -> Forall (step_wf E) ss -> Forall step_static_ok ss -> NoStaticIfInactive E c ->
+  run_steps E ss c = (c', evs) -> NoStaticIfInactive E c'.
+Proof.
+  induction ss as [|s ss IH]; intros c c' evs Hwf Hss Hst HN H; cbn [run_steps] in H.
+  - inversion H; subst. exact HN.
+  - inversion Hss as [|? ? Hs Hss']; subst. inversion Hst as [|? ? Hs2 Hst']; subst.
+    destruct (run_step E s c) as [c1 e1] eqn:H1. destruct (run_steps E ss c1) as [c2 e2] eqn:H2.
+    inversion H; subst c' evs.
+    destruct (run_step_spec s c c1 e1 Hwf Hs H1) as [_ W1].
+    exact (IH c1 c2 e2 W1 Hss' Hst' (run_step_no_static s c c1 e1 Hwf Hs Hs2 HN H1) H2).
+Qed.
+
+Definition kind_static_ok (k : sprint_kind) : Prop :=
+  match k with KResume (Some c') _ => NoStaticIfInactive E c' | _ => True end.
+
+Corollary sprint_no_static : forall k acts c c' evs,
+  wf_contact E c -> kind_wf k -> kind_static_ok k -> Forall (fun fm => mod_wf E (snd fm)) acts ->
+  NoStaticIfInactive E c ->
+  run_sprint E k acts c = (c', evs) -> NoStaticIfInactive E c'.
+Proof.
+  intros k acts c c' evs Hwf Hk Hks Hms HN H. unfold run_sprint in H.
+  apply (steps_no_static _ c c' evs Hwf (sprint_steps_wf k acts Hk Hms)); [|exact HN | exact H].
+  assert (Happ : Forall step_static_ok (map (fun fm => SApply (fst fm) (snd fm)) acts)).
+  { apply Forall_map. apply Forall_forall. intros x _. exact I. }
+  destruct k as [|[t|]|[c0|] [t|]]; cbn [sprint_steps opt_step app];
+    repeat (constructor; try exact I; try exact Hks); exact Happ.
+Qed.
+
 End Steps.
 
 (* the premises are satisfiable: a msg resume with a refreshed contact whose stored membership is wrong *)
